@@ -569,8 +569,10 @@ impl Ctx {
             .insert((name.to_string(), key.clone()), spec.clone());
         #[cfg(goml_verif)]
         let mut pushed = false;
+        #[cfg(goml_verif)]
+        let key_text = format!("{:?}", key.0);
         if !self.queued.contains(&(name.to_string(), key.clone())) {
-            self.queued.insert((name.to_string(), key.clone()));
+            self.queued.insert((name.to_string(), key));
             self.work.push_back((name.to_string(), s, spec.clone()));
             #[cfg(goml_verif)]
             {
@@ -579,7 +581,7 @@ impl Ctx {
         }
         #[cfg(goml_verif)]
         crate::verif_hooks::emit(|| {
-            serde_json::json!({"ev": "ensure", "fn": name, "key": format!("{:?}", key.0), "spec": spec,
+            serde_json::json!({"ev": "ensure", "fn": name, "key": key_text, "spec": spec,
                 "outcome": if pushed { "new" } else { "named" }, "work": self.work.len()})
         });
         spec
